@@ -298,11 +298,18 @@ Definition meth (v : gval) (m : string) (args : list gval) : res gval :=
       if (ty =? "Data") && (m =? "DACommitment") then RRet (VIdD 0) else RFail ("zero value." ++ m)
   | VZ t, [] => if m =? "UnixNano" then RRet (VZ t) else RFail ("Time." ++ m)
   | VUnit, [VLE64 n] => if m =? "Uint64" then RRet (VN n) else RFail ("binary.LittleEndian." ++ m)    (* ctx.Err() after ctx.Done() fired *)
+  | VTok n [VBool c], [] =>                                    (* a context given with "has it been cancelled": ctx.Err() *)
+      if (n =? "ctx") && (m =? "Err") then RRet (VErr c) else RRet (VTok m (v :: args))
   | VTok _ _, _ => RRet (VTok m (v :: args))                   (* a pure method of an uninterpreted value *)
   | VOrc _ answers, _ =>                                       (* read in an expression: the first answer, not logged *)
       match lookup answers m with
       | Some (x :: _) => RRet x
       | _ => RFail ("oracle method " ++ m)
+      end
+  | VObj _ fields, _ =>                                        (* an untranslated method of an object, read in an expression: scripted, not logged *)
+      match lookup fields "$orc" with
+      | Some (VOrc _ answers) => match lookup answers m with Some (x :: _) => RRet x | _ => RFail ("method " ++ m) end
+      | _ => RFail ("method " ++ m)
       end
   | VRec fields, [u] =>                                        (* BatchData embeds time.Time: batchData.Before(t) *)
       if m =? "Before" then
@@ -475,6 +482,7 @@ Definition builtin (globals : env) (f : string) (args : list gval) : res gval :=
   else if f =? "context.WithTimeout" then RRet (VTuple [VTok "ctx-with-timeout" args; VUnit])
   else if (f =? "int") || (f =? "time.Duration") then match args with [v] => RRet v | _ => RFail f end
   else if f =? "max" then match args with [VZ a; VZ b] => RRet (VZ (Z.max a b)) | _ => RFail "max" end
+  else if f =? "time.NewTicker" then RRet (VTok f args)
   else if f =? "filepath.Join" then RRet (VTok f args)           (* a path, by its components *)
   else if f =? "gob.NewEncoder" then match args with [w] => RRet w | _ => RFail "gob.NewEncoder" end   (* encoding into w *)
   else if f =? "gob.Register" then RRet VUnit
@@ -686,6 +694,7 @@ Definition effect_of (v : gval) (m : string) (args : list gval) : option gval :=
   | VHCache _ => if m =? "SetDAIncluded" then Some (VEff "header-da-included" args) else None
   | VDCache _ => if m =? "SetDAIncluded" then Some (VEff "data-da-included" args) else None
   | VMgr _ => if m =? "sendNonBlockingSignalToDAIncluderCh" then Some (VEff "signal-da-includer" []) else None
+  | VAtom name _ => if m =? "Store" then Some (VEff (String.append name ".store") args) else None
   | _ => None
   end.
 
